@@ -227,6 +227,16 @@ func opHist(c Case, r Result) {
 	if cp1 == nil {
 		return
 	}
+	// other sources compiled in between (their outcome is irrelevant: they may be rejected)
+	if pre, ok := c["between_hex"]; ok {
+		for _, p := range pre.([]any) {
+			b, _ := hex.DecodeString(p.(string))
+			func() {
+				defer func() { recover() }()
+				compileSrc(string(b), Result{})
+			}()
+		}
+	}
 	r2 := Result{}
 	cp2 := compileSrc(src, r2)
 	if cp2 == nil {
